@@ -276,7 +276,7 @@ def stream_csys(ctx, worlds, results, tag="S-csys"):
     if not cases:
         return idx
     try:
-        mism = ctx.model_stream(tag, HEADER, "tinst * val", "(fun p => csys_diff (gen_tetri (fst p)) (snd p))", cases)
+        mism = ctx.model_stream(tag, HEADER, "tinst * val", "(fun p => csys_diff (gen_tetri (fst p)) (snd p))", cases, shard=25)
         for ci, mv in mism[:3]:
             i = cases[ci][2]
             ctx.violation("csys%d" % i, {"stream": tag, "world": worlds[i], "instance": results[i]["inst"],
@@ -302,14 +302,14 @@ def stream_readback(ctx, worlds, results, tag="S-readback"):
         return
     try:
         mism = ctx.model_stream(tag, HEADER, "tinst * list (list Z * Z)",
-                                "(fun p => v_readback (readback (fst p) (assign_of_keys (snd p))))", cases)
+                                "(fun p => v_readback (readback (fst p) (assign_of_keys (snd p))))", cases, shard=25)
         for ci, mv in mism[:3]:
             i = cases[ci][2]
             ctx.violation("readback%d" % i, {"stream": tag, "world": worlds[i], "placements": results[i]["placements"],
                                              "model_readback": mv, "solver_values": results[i]["values"],
                                              "what": "Placements returned by schedule() differ from the model's read-back of the solver's values"})
         bad = ctx.monitor_stream("M-sat", HEADER, "tinst * list (list Z * Z)",
-                                 "(fun p => sat (gen_tetri (fst p)) (assign_of_keys (snd p)))", [c[0] for c in cases])
+                                 "(fun p => sat (gen_tetri (fst p)) (assign_of_keys (snd p)))", [c[0] for c in cases], shard=12)
         for b in bad[:3]:
             i = cases[b][2]
             ctx.violation("sat%d" % i, {"stream": "M-sat", "world": worlds[i], "solver_values": results[i]["values"],
@@ -337,7 +337,7 @@ def monitor_plans(ctx, worlds, results, tag, fn, what, skip=None):
     if not cases:
         return 0
     try:
-        bad = ctx.monitor_stream(tag, HEADER, "tinst * plan", fn, cases)
+        bad = ctx.monitor_stream(tag, HEADER, "tinst * plan", fn, cases, shard=25)
         for b in bad[:3]:
             i = where[b]
             ctx.violation("%s%d" % (tag.replace("-", ""), i),
@@ -359,7 +359,7 @@ def monitor_wf(ctx, worlds, results):
     if not cases:
         return
     try:
-        bad = ctx.monitor_stream("M-wf", HEADER, "tinst", "wf_instb", cases)
+        bad = ctx.monitor_stream("M-wf", HEADER, "tinst", "wf_instb", cases, shard=40)
         for b in bad[:3]:
             i = where[b]
             ctx.violation("wf%d" % i, {"stream": "M-wf", "world": worlds[i], "instance": results[i]["inst"],
@@ -374,7 +374,7 @@ def py_monitor_fallback(ctx, worlds, results):
     """Pure-Python search for a failing input, used when the Coq side is broken: joint capacity at every
     integer instant, deadlines, precedence (chosen runtime), start >= now, one answer per task."""
     for i, (w, r) in enumerate(zip(worlds, results)):
-        if "inst" not in r or r.get("placements") is None:
+        if "inst" not in r or r.get("placements") is None or "values" not in r:
             continue
         inst = r["inst"]
         msg = py_check(inst, r)
@@ -494,7 +494,7 @@ def prepare(ctx, props_file):
 
 def sizes(ctx):
     quick = ctx.tier == "quick"
-    return (90, 50) if quick else (700, 350)
+    return (70, 40) if quick else (700, 350)
 
 
 def run(ctx):
